@@ -17,7 +17,7 @@ pub const DEF: PropDef = PropDef {
     id: "C15",
     run,
     oracle,
-    rule: "cases = (cache-preloading calls, measured call) from: F1 hostile headers over short bodies (every count/length field of every version set to 0xffff/0x7fff); F2 buffers packed with n minimal packets per version; F3 one packet with n minimal sets/flowsets (empty, one record) under small and 1000-field cached templates; F4 one set with n minimal records; F5 templates with n fields plus matching data; F6 templates with z zero-length fields x r records (z*r <= 2e5); F7 failing records (V9 retry loop); F8 random hostile and conformant histories; sizes up to the 65,535-byte limit. Oracle per measured call: S1 alloc_bytes <= K0 + K1*|buf| + K2*result_size; S2 result_size <= K0 + K3*(|buf| + wire size of the cached templates); S3 (metamorphic, per family) cost(2n) <= 2.5*cost(n) + K0 for alloc_bytes, alloc_calls and result_size at successive doublings up to the limit. K0 = 128 KiB; K1, K2, K3 calibrated once (4x the maximum observed on the unchanged tree over the generated cases that avoid open findings; recorded in the source). A bound that fails only by what the open finding 'zero-length fields are materialised per record' explains (budget computed from the templates in effect and the set sizes) is forgiven with that signature; anything else is a violation. non-trivial = |buf| >= 1 KiB, or a header field announces >= 16x more records/bytes than present, or the case is an S3 doubling pair; distinct by digest.",
+    rule: "cases = (cache-preloading calls, measured call) from: F1 hostile headers over short bodies (every count/length field of every version set to 0xffff/0x7fff); F2 buffers packed with n minimal packets per version; F3 one packet with n minimal sets/flowsets (empty, one record) under small and 1000-field cached templates; F4 one set with n minimal records; F5 templates with n fields plus matching data; F6 templates with z zero-length fields x r records (z*r <= 2e5); F7 failing records (V9 retry loop); F9 decode-then-discard; F10 one packet whose n sets redefine (same kind / other kind) or carry data for n distinct ids of a cache that earlier calls filled with 6000 templates (cost must not depend on what is cached); F8 random hostile and conformant histories; sizes up to the 65,535-byte limit. Oracle per measured call: S1 alloc_bytes <= K0 + K1*|buf| + K2*result_size; S2 result_size <= K0 + K3*(|buf| + wire size of the cached templates); S3 (metamorphic, per family) cost(2n) <= 2.5*cost(n) + K0 for alloc_bytes, alloc_calls and result_size at successive doublings up to the limit. K0 = 128 KiB; K1, K2, K3 calibrated once (4x the maximum observed on the unchanged tree over the generated cases that avoid open findings; recorded in the source). A bound that fails only by what the open finding 'zero-length fields are materialised per record' explains (budget computed from the templates in effect and the set sizes) is forgiven with that signature; anything else is a violation. non-trivial = |buf| >= 1 KiB, or a header field announces >= 16x more records/bytes than present, or the case is an S3 doubling pair; distinct by digest.",
     assumptions: &[
         "cost is allocator traffic on the calling thread (deterministic); CPU time is not an oracle",
         "constants K1..K3 are calibrated, not derived; the targeted defects exceed them by orders of magnitude",
@@ -294,8 +294,77 @@ fn data_set(id: u16, body_len: usize, fill: u8) -> Vec<u8> {
     s.0
 }
 
+
+/// options template with one scope field and one option field
+fn opt_small() -> Def {
+    Def { kind: Kind::Options, scope_n: 1, fields: vec![FieldSpec { ie: 1, len: 4, ent: None }, FieldSpec { ie: 2, len: 4, ent: None }] }
+}
+/// one template set (one record) of `def` for `id`, padded to a 4-byte boundary
+fn tpl_set_padded(proto: Proto, id: u16, def: &Def) -> Vec<u8> {
+    let mut r = W::default();
+    enc_template_record(&mut r, proto, id, def);
+    let mut s = W::default();
+    let pad = (4 - r.0.len() % 4) % 4;
+    enc_set(&mut s, template_set_id(proto, def.kind), &r.0, pad);
+    s.0
+}
+fn wrap(proto: Proto, nsets: usize, body: &[u8]) -> Vec<u8> {
+    match proto {
+        Proto::V9 => v9_pkt(nsets.min(0xffff) as u16, body),
+        Proto::Ipfix => ipfix_msg(body),
+    }
+}
+/// F10 base id / number of ids preloaded into the cache
+const F10_BASE: u16 = 1000;
+const F10_M: usize = 6000;
+/// preloading calls that define ids F10_BASE..F10_BASE+F10_M with `def`, one record per set
+fn preload_many(proto: Proto, def: &Def) -> Vec<Vec<u8>> {
+    let mut calls = vec![];
+    let mut body: Vec<u8> = vec![];
+    let mut n = 0usize;
+    for i in 0..F10_M {
+        body.extend(tpl_set_padded(proto, F10_BASE + i as u16, def));
+        n += 1;
+        if body.len() > 60000 {
+            calls.push(wrap(proto, n, &body));
+            body.clear();
+            n = 0;
+        }
+    }
+    if !body.is_empty() {
+        calls.push(wrap(proto, n, &body));
+    }
+    calls
+}
+/// F10: the cost of a call must not depend on how many templates earlier calls cached.
+/// (what cached, what the measured packet's n sets do with n distinct cached ids)
+fn family_f10(name: &str, n: usize) -> Option<(Vec<Vec<u8>>, Vec<u8>)> {
+    let rest = name.strip_prefix("F10-")?;
+    let (proto, rest) = if let Some(r) = rest.strip_prefix("v9-") { (Proto::V9, r) } else { (Proto::Ipfix, rest.strip_prefix("ipfix-")?) };
+    let small = plain(vec![(1, 4)]);
+    let other = plain(vec![(2, 2), (1, 2)]);
+    let opt = opt_small();
+    let n = n.min(F10_M);
+    let (cached, per_set): (&Def, Box<dyn Fn(u16) -> Vec<u8>>) = match rest {
+        "options-cached-redefined-as-plain" => (&opt, Box::new(|id| tpl_set_padded(proto, id, &small))),
+        "plain-cached-redefined-as-options" => (&small, Box::new(|id| tpl_set_padded(proto, id, &opt))),
+        "plain-cached-redefined" => (&small, Box::new(|id| tpl_set_padded(proto, id, &other))),
+        "plain-cached-data" => (&small, Box::new(|id| data_set(id, 4, 7))),
+        "options-cached-data" => (&opt, Box::new(|id| data_set(id, 8, 7))),
+        _ => return None,
+    };
+    let mut body = vec![];
+    for i in 0..n {
+        body.extend(per_set(F10_BASE + i as u16));
+    }
+    Some((preload_many(proto, cached), wrap(proto, n, &body)))
+}
+
 /// family instance of size parameter n: (preload calls, measured buffer)
 pub fn family(name: &str, n: usize) -> Option<(Vec<Vec<u8>>, Vec<u8>)> {
+    if name.starts_with("F10-") {
+        return family_f10(name, n);
+    }
     let wide = plain((0..1000).map(|i| ((i % 60 + 1) as u16, 1)).collect());
     let small = plain(vec![(1, 4)]);
     Some(match name {
@@ -313,6 +382,17 @@ pub fn family(name: &str, n: usize) -> Option<(Vec<Vec<u8>>, Vec<u8>)> {
         "F3-v9-empty-flowsets-wide-tpl" => (vec![v9_pkt(1, &tpl_set(Proto::V9, 256, &wide))], v9_pkt(0xffff, &data_set(256, 0, 0).repeat(n))),
         "F3-v9-1rec-flowsets-small-tpl" => (vec![v9_pkt(1, &tpl_set(Proto::V9, 256, &small))], v9_pkt(0xffff, &data_set(256, 4, 9).repeat(n))),
         "F3-v9-short-flowsets-wide-tpl" => (vec![v9_pkt(1, &tpl_set(Proto::V9, 256, &wide))], v9_pkt(0xffff, &data_set(256, 4, 9).repeat(n))),
+        // per-flowset cost must not scale with the width of the cached (options) template
+        "F3-v9-empty-flowsets-16k-tpl" | "F3-v9-short-flowsets-16k-tpl" | "F3-v9-empty-flowsets-16k-opttpl" | "F3-v9-short-flowsets-16k-opttpl" | "F3-v9-short-flowsets-1k-opttpl" => {
+            let nf = if name.contains("16k") { 16000 } else { 1000 };
+            let mut d = plain((0..nf).map(|i| ((i % 60 + 1) as u16, 1)).collect());
+            if name.contains("opttpl") {
+                d.kind = Kind::Options;
+                d.scope_n = 1;
+            }
+            let set = if name.contains("empty") { data_set(256, 0, 0) } else { data_set(256, 4, 9) };
+            (vec![v9_pkt(1, &tpl_set_padded(Proto::V9, 256, &d))], v9_pkt(0xffff, &set.repeat(n)))
+        }
         "F4-ipfix-1B-records" => (vec![ipfix_msg(&tpl_set(Proto::Ipfix, 300, &plain(vec![(5, 1)])))], ipfix_msg(&data_set(300, n, 0x41))),
         "F4-v9-1B-records" => (vec![v9_pkt(1, &tpl_set(Proto::V9, 300, &plain(vec![(5, 1)])))], v9_pkt(1, &data_set(300, n, 0x41))),
         "F4-ipfix-varlen-empty-records" => (vec![ipfix_msg(&tpl_set(Proto::Ipfix, 301, &plain(vec![(82, VARLEN)])))], ipfix_msg(&data_set(301, n, 0))),
@@ -433,6 +513,11 @@ pub const FAMILIES: &[(&str, usize, usize)] = &[
     ("F3-v9-empty-flowsets-wide-tpl", 4, 16000),
     ("F3-v9-1rec-flowsets-small-tpl", 8, 8000),
     ("F3-v9-short-flowsets-wide-tpl", 8, 8000),
+    ("F3-v9-empty-flowsets-16k-tpl", 4, 16000),
+    ("F3-v9-short-flowsets-16k-tpl", 8, 8000),
+    ("F3-v9-empty-flowsets-16k-opttpl", 4, 16000),
+    ("F3-v9-short-flowsets-16k-opttpl", 8, 8000),
+    ("F3-v9-short-flowsets-1k-opttpl", 8, 8000),
     ("F4-ipfix-1B-records", 1, 65000),
     ("F4-v9-1B-records", 1, 65000),
     ("F4-ipfix-varlen-empty-records", 1, 65000),
@@ -449,6 +534,16 @@ pub const FAMILIES: &[(&str, usize, usize)] = &[
     ("F1c-v9-flowsets-tpl-fields-overannounced", 8, 8000),
     ("F9-v9-decode-then-discard", 1, 65000),
     ("F9-ipfix-decode-then-truncated-varlen", 1, 65000),
+    ("F10-v9-options-cached-redefined-as-plain", 12, 5000),
+    ("F10-v9-plain-cached-redefined-as-options", 24, 2500),
+    ("F10-v9-plain-cached-redefined", 16, 3700),
+    ("F10-v9-plain-cached-data", 8, 6000),
+    ("F10-v9-options-cached-data", 12, 5000),
+    ("F10-ipfix-options-cached-redefined-as-plain", 12, 5000),
+    ("F10-ipfix-plain-cached-redefined-as-options", 20, 3000),
+    ("F10-ipfix-plain-cached-redefined", 16, 3700),
+    ("F10-ipfix-plain-cached-data", 8, 6000),
+    ("F10-ipfix-options-cached-data", 12, 5000),
     ("F6-v9-zero-length-fields", 1, 1000),
     ("F6-ipfix-zero-length-fields", 1, 1000),
 ];
@@ -584,7 +679,7 @@ fn family_singles() -> Vec<Case> {
 pub fn run(ctx: &Ctx) {
     ctx.replay_findings(&oracle);
     ctx.enumerate("F1-hostile-headers", hostile_headers(), false, &oracle);
-    ctx.enumerate("F2-F7-family-instances", family_singles(), false, &oracle);
+    ctx.enumerate("F2-F10-family-instances", family_singles(), false, &oracle);
     ctx.enumerate("S3-doubling-pairs", doubling_cases(), false, &oracle);
     ctx.search("F8-hostile-histories", ctx.n(200_000, 15_000_000), &gen::hostile_case, &oracle);
     ctx.search("F8-datagram-sized-stress-cases-mutated", ctx.n(320, 10_000), &super::c01::stress_mut_case, &oracle);
